@@ -181,3 +181,29 @@ def _(v):
     r2 = v.call(mass_fractions, {"O2", "H2"}, subst) if not v.symbolic else None
     if r2 is not None:
         v.prove("set_means_unit_coefficients", v.eq(r2["H2"], float(ms["H2"]) / (float(ms["H2"]) + float(ms["O2"]))))
+
+
+@harness("C14", "no_state_between_masses", functions=["chempy.chemistry:Substance.mass", "chempy.chemistry:Substance.from_formula", "chempy.util.periodic:mass_from_composition"], kind="data")
+def _(v):
+    """the mass of a substance is a function of ITS composition as it is now: no value left behind by another substance, by an earlier
+    construction from the same formula, or by an earlier reading"""
+    from chempy.chemistry import Substance
+    from chempy.util.periodic import relative_atomic_masses as ram
+    me = 5.489e-4
+    close = lambda a, b: abs(a - b) < 1e-9
+    for first in ("ion", "neutral"):
+        pair = [Substance.from_formula("Ce", charge=4), Substance.from_formula("Ce")] if first == "ion" else [Substance.from_formula("Ce"), Substance.from_formula("Ce", charge=4)][::-1]
+        ion, neutral = pair
+        v.prove("ion_and_parent_differ_by_the_electron_masses.%s_first" % first, close(neutral.mass, ram[57]) and close(neutral.mass - ion.mass, 4 * me) and neutral.charge == 0 and ion.charge == 4)
+    shared = {}
+    a = Substance.from_formula("NaCl", data=shared)
+    b = Substance.from_formula("H2O", data=shared)
+    ma, mb = a.mass, b.mass
+    v.prove("substances_sharing_a_data_dict_keep_their_own_masses", close(ma, ram[10] + ram[16]) and close(mb, 2 * ram[0] + ram[7]) and close(a.mass, ma))
+    v.prove("reading_the_mass_does_not_write_into_data", shared == {})
+    c = Substance("X", composition={1: 2, 8: 1})
+    m1 = c.mass
+    c.composition[8] = 2
+    v.prove("mass_follows_the_composition", close(m1, 2 * ram[0] + ram[7]) and close(c.mass, 2 * ram[0] + 2 * ram[7]))
+    d = Substance("Y", composition={1: 1}, data={"mass": 42.0})
+    v.prove("explicit_mass_wins", d.mass == 42.0)
